@@ -194,6 +194,9 @@ func (lib *testCaseLibrary) expandSuite(suite *conformancev1.TestSuite, configCa
 
 func (lib *testCaseLibrary) expandCases(cfgCase configCase, namePrefix []string, testCases []*conformancev1.TestCase) error {
 	for i, testCase := range testCases {
+		if testCase.GetRequest() == nil {
+			return fmt.Errorf("test case #%d: test case has no request", i+1)
+		}
 		if testCase.Request.TestName == "" {
 			return fmt.Errorf("test case #%d: test case has no name", i+1)
 		}
@@ -452,7 +455,10 @@ func parseTestSuites(testFileData map[string][]byte) (map[string]*conformancev1.
 		if err := opts.Unmarshal(data, suite); err != nil {
 			return nil, internal.EnsureFileName(err, testFilePath)
 		}
-		for _, testCase := range suite.TestCases {
+		for i, testCase := range suite.TestCases {
+			if testCase.GetRequest() == nil {
+				return nil, fmt.Errorf("%s: test case #%d has no request", testFilePath, i+1)
+			}
 			if testCase.Request.RawRequest != nil && suite.Mode != conformancev1.TestSuite_TEST_MODE_SERVER {
 				return nil, fmt.Errorf("%s: test case %q has raw request, but that is only allowed when mode is TEST_MODE_SERVER",
 					testFilePath, testCase.Request.TestName)
